@@ -9,11 +9,32 @@ EXTENDS Emission, Json
 Cases == ndJsonDeserialize("texts.ndjson")
 VARIABLE ci
 
+\* A literal may run over several source lines: each line break inside the quotes,
+\* together with the blanks that follow it, stands for one space.
+Blank == {" ", "\t", "\n", "\r"}
+Break == {"\n", "\r"}
+RECURSIVE Col(_, _, _)
+Col(s, i, skipping) ==
+    IF i > Len(s) THEN ""
+    ELSE LET ch == SubSeq(s, i, i) IN
+         IF skipping /\ ch \in Blank THEN Col(s, i + 1, TRUE)
+         ELSE IF ch \in Break THEN " " \o Col(s, i + 1, TRUE)
+         ELSE ch \o Col(s, i + 1, FALSE)
+Denoted(written) == [i \in 1..Len(written) |-> Col(written[i], 1, FALSE)]
+
+RECURSIVE JoinNL(_, _)
+JoinNL(ps, i) == IF i > Len(ps) THEN "" ELSE (IF i > 1 THEN "\n" ELSE "") \o ps[i] \o JoinNL(ps, i + 1)
+
+\* c.written: the parts as written between the quotes; for format() texts c.fmtin is what the
+\* harness gave to the real formatter and c.parts the lines it returned (C07 checks those)
 Holds(c) ==
+    LET den   == Denoted(c.written)
+        parts == IF c.fmt THEN c.parts ELSE den IN
     /\ c.found                                       \* the label exists (once)
-    /\ Len(c.lines) = Len(c.parts)                   \* one directive per source line
+    /\ c.fmt => c.fmtin = JoinNL(den, 1)
+    /\ Len(c.lines) = Len(parts)                     \* one directive per source line
     /\ \A i \in 1..Len(c.lines) : c.lines[i].dir = Directive(c.type)
-    /\ [i \in 1..Len(c.lines) |-> c.lines[i].content] = ExpectedTextLines(c.parts, c.type)
+    /\ [i \in 1..Len(c.lines) |-> c.lines[i].content] = ExpectedTextLines(parts, c.type)
 
 Init == ci \in 1..Len(Cases)
 Next == UNCHANGED ci
